@@ -468,11 +468,14 @@ SERVES = {
     'C11': ('cmp_',), 'C12': ('stats_',), 'C05': ('overlapForKernel', 'blocks_'),
     'C06': ('blocks_', 'expandWindow_', 'roundBounds_', 'autoBlock_'), 'C16': ('covers_axis',), 'C18': ('resolveAutoIsRef',),
 }
-# tie theorems audited with a property's proof leg: (module, theorem name prefix)
+# theorems outside Props/Cxx.lean audited with a property's proof leg: (module, theorem name prefix) - the source-text tie
+# theorems and the end-to-end theorems about the whole-image model (Props/E2E.lean)
 TIE = {
-    'C01': [('SrcTieKernel', 'src_C01_')], 'C02': [('SrcTieKernel', 'src_C01_'), ('SrcTieKernel', 'src_C14_apply')],
+    'C01': [('SrcTieKernel', 'src_C01_')],
+    'C02': [('SrcTieKernel', 'src_C01_'), ('SrcTieKernel', 'src_C14_apply'), ('E2E', 'block_transparent')],
+    'C03': [('E2E', 'block_transparent')],
     'C07': [('SrcTieKernel', 'src_C01_')], 'C14': [('SrcTieKernel', 'src_C14_'), ('SrcTieGeom', 'src_C14_')],
-    'C11': [('SrcTieStats', 'src_C11_')], 'C12': [('SrcTieStats', 'src_C12_')], 'C05': [('SrcTieGeom', 'src_C05_'), ('SrcTieGeom', 'src_C06_block')],
+    'C11': [('SrcTieStats', 'src_C11_')], 'C12': [('SrcTieStats', 'src_C12_')], 'C05': [('SrcTieGeom', 'src_C05_'), ('SrcTieGeom', 'src_C06_block'), ('E2E', 'block_transparent'), ('E2E', 'partitions_agree')],
     'C06': [('SrcTieGeom', 'src_C06_')], 'C16': [('SrcTieGeom', 'src_C16_')], 'C18': [('SrcTieGeom', 'src_C18_')],
 }
 
